@@ -11,13 +11,13 @@ from vf.bpenv import BpWorld
 MANIFEST = {
     'text': 'Bounded symbolic model checking of recv_bundle / _finish_bundle / create_report / send of the report: '
             'all 32 combinations of the five report-request flags x report-to {dtn:none, real} x outcome {deliver, '
-            'forward, forward with fragmentation, forward that fails for lack of a transmit route, delete, no route}; subject creation time and sequence number '
+            'forward, forward with fragmentation, forward that fails for lack of a transmit route, forward over a route whose MTU is below the non-payload part of the bundle, delete, no route}; subject creation time and sequence number '
             'symbolic; the transmitted report octets are decoded independently and compared with the requested and '
             'occurred actions.',
     'note': 'Trusted: engine, vf.symcbor, independent reader, z3. Security-failure outcome is exercised in C12.',
     'ref': '5 C19'}
-BOUNDS = {'quick': dict(flags='all 32 combinations', report_to='dtn:none | real', outcomes=8),
-          'thorough': dict(flags='all 32 combinations', report_to='dtn:none | real', outcomes=8, subject='CRC types 0/1/2, sequence number in [0,2^64), a fragment as subject of forward/delete outcomes')}
+BOUNDS = {'quick': dict(flags='all 32 combinations', report_to='dtn:none | real', outcomes=9),
+          'thorough': dict(flags='all 32 combinations', report_to='dtn:none | real', outcomes=9, subject='CRC types 0/1/2, sequence number in [0,2^64), a fragment as subject of forward/delete outcomes')}
 ASSUMPTIONS = [
     'one subject bundle per run',
     'forwarded status is judged after the send (the implementation records it after send_bundle returns)',
@@ -27,7 +27,7 @@ QUICK_VALIDATE = 3
 
 NODE = 'dtn://node/'
 FL = dict(deletion=0x40000, delivery=0x20000, forwarding=0x10000, reception=0x4000, time=0x40)
-OUTCOMES = ['deliver', 'forward', 'fragment', 'delete', 'noroute', 'fwdfail', 'nofrag', 'fraginc']
+OUTCOMES = ['deliver', 'forward', 'fragment', 'delete', 'noroute', 'fwdfail', 'nofrag', 'fraginc', 'mtufail']
 
 
 def cases(tier):
@@ -40,7 +40,7 @@ def cases(tier):
                 # that is itself a fragment
                 out.append(dict(outcome=oc, rep=rep, crc=0, wide=1))
                 out.append(dict(outcome=oc, rep=rep, crc=1, wide=1))
-                if oc in ('forward', 'delete', 'fwdfail'):
+                if oc in ('forward', 'delete', 'fwdfail', 'mtufail'):
                     out.append(dict(outcome=oc, rep=rep, crc=2, frag=1))
     return out
 
@@ -51,12 +51,16 @@ def harness(case, tier):
     w = BpWorld(node_id=NODE, ctr_cap=12)
     dest = {'deliver': 'dtn://node/app', 'forward': 'dtn://far/app', 'fragment': 'dtn://far/app', 'nofrag': 'dtn://far/app',
             'fraginc': 'dtn://node/app',
-            'delete': 'dtn://bad/app', 'noroute': 'dtn://nowhere/app', 'fwdfail': 'dtn://lost/app'}[oc]
+            'delete': 'dtn://bad/app', 'noroute': 'dtn://nowhere/app', 'fwdfail': 'dtn://lost/app',
+            'mtufail': 'dtn://tiny/app'}[oc]
     w.add_rx_route(r'^dtn://node/.+', 'deliver')
     w.add_rx_route(r'^dtn://far/.*', 'forward')
     w.add_rx_route(r'^dtn://bad/.*', 'delete')
     w.add_rx_route(r'^dtn://lost/.*', 'forward')      # but there is no transmit route for it
     w.add_tx_route(r'^dtn://far/.*', mtu=160 if oc in ('fragment', 'nofrag') else None)
+    w.add_rx_route(r'^dtn://tiny/.*', 'forward')
+    # a route whose MTU is below the non-payload part of the bundle: fragmentation cannot succeed, nothing is sent
+    w.add_tx_route(r'^dtn://tiny/.*', mtu=[20, 50][c.choose(2, 'tiny-mtu')] if oc == 'mtufail' else None)
     w.add_tx_route(r'^dtn://rep/.*', mtu=None)
     bits = c.choose(32, 'report-flags')
     names = ['deletion', 'delivery', 'forwarding', 'reception', 'time']
@@ -98,7 +102,9 @@ def harness(case, tier):
         b = rfc9171.decode_bundle(d)
         (reports if bool((b['primary']['flags'] & 2) != 0) else others).append(b)
     occurred = {'reception': True, 'delivery': oc == 'deliver', 'forwarding': oc in ('forward', 'fragment', 'nofrag'),
-                'deletion': oc in ('delete', 'fwdfail')}
+                'deletion': oc in ('delete', 'fwdfail', 'mtufail')}
+    if oc in ('delete', 'fwdfail', 'mtufail'):
+        c.prove(len(others) == 0, 'deleted-bundle-not-forwarded[%s]' % oc, detail=len(others))
     if oc in ('forward', 'fragment', 'nofrag'):
         c.prove(len(others) >= 1, 'subject-was-forwarded', detail=len(others))
     want_any = case['rep'] == 'real' and any(req[n] and occurred[n] for n in occurred)
